@@ -64,6 +64,14 @@ SPECS = {
     # --- two writers
     'swap2': {'name': 'swap2', 'setup': 'cs_setup1', 'threads': [(W, 'cs_w_swap1'), (W, 'cs_w_swap2')],
               'final': 'cs_final1', 'covers': [13]},
+    'cas_aba': {'name': 'cas_aba', 'setup': 'cs_setup_pool', 'threads': [(W, 'cs_w_cas01'), (W, 'cs_w_swap2_store0')],
+                'final': 'cs_final_cas', 'covers': [13]},
+    'rcu2': {'name': 'rcu2', 'setup': 'cs_setup_pool', 'threads': [(W, 'cs_w_rcu_t1'), (W, 'cs_w_rcu_t2')],
+             'final': 'cs_final_rcu2', 'covers': [13]},
+    'moved_guard': {'name': 'moved_guard', 'setup': 'cs_setup1', 'threads': [('cs_park_t1', 'cs_w_store1'), (W, 'cs_drop_parked')],
+                    'final': 'cs_final1', 'covers': [13]},
+    'wrap_conc': {'name': 'wrap_conc', 'setup': 'cs_setup2', 'threads': [('cs_fill8_wrap_t1', 'cs_r_fallback'), (W, 'cs_w_store1')],
+                  'final': 'cs_final2_release', 'covers': [13, 14]},
     # --- two containers: writer of B walks the node of a reader of A which is on the fallback path
     'iso_b': {'name': 'iso_b', 'setup': 'cs_setup2', 'threads': [('cs_fill8_t1', 'cs_r_fallback'), (W, 'cs_w_store_b3')],
               'final': 'cs_final2_release', 'covers': [13, 14]},
